@@ -103,6 +103,14 @@ def totp_corpus():
     # 16. replayed right codes are failures like any other: five of them lock the user out
     s.append([B("a", 0, "next"), B("a", 61, "prev")] + [B("a", 3, "prev") for _ in range(4)] +
              [B("a", 3, "good"), B("a", 3601, "good")])
+    # 17. the lock-out counts from the failure that starts it, not from an older stored time: four wrong codes, an hour's
+    #     pause, the fifth wrong code -- the next attempts (10 min, 50 min later) must still be locked out
+    s.append([B("a", 0)] + [B("a", 3) for _ in range(3)] + [B("a", 3700), B("a", 600), B("a", 2400, "good"), B("a", 700, "good")])
+    # 18. the same after a success long ago: typo + right code, two hours later five wrong codes, then a right one
+    s.append([B("a", 0), B("a", 31, "good"), B("a", 7300)] + [B("a", 3) for _ in range(4)] + [B("a", 40, "good"), B("a", 1800), B("a", 1900, "good")])
+    # 19. second block a day's work later: 5 failures, 3 h pause, 5 more -> locked for two hours from the tenth
+    s.append([B("a", 0)] + [B("a", 3) for _ in range(4)] + [B("a", 10900)] + [B("a", 3) for _ in range(4)] +
+             [B("a", 3700, "good"), B("a", 3400), B("a", 200, "good")])
     # 13. sixteen goroutines submit the right code at the same moment: at most one is accepted
     s.append(["catt a 0 auto 16", B("a", 3), "catt a 40 auto 16"] + [B("a", 3) for _ in range(5)] +
              ["catt a 3 auto 16", "catt a 3600 auto 16", "catt b 0 auto 16", "catt b 1 auto 16", "catt b 1 auto 4"])
